@@ -41,9 +41,9 @@ func ruleC06(r *Report) {
 	r.Trusted("goxmldsig v1.4.0 (SignEnveloped, canonicalisation)", "etree v1.5.0", "html/template", "go/ssa of golang.org/x/tools v0.29.0")
 	r.NotDecided("that the signatures verify (goxmldsig; determinism of Element() for all strings is judged by C07); the session-to-attribute mapping beyond its source restriction")
 	r.Rule("C06.fields", "provenance of every scoping field: Recipient/Destination/form action <- selected registered endpoint; InResponseTo <- request ID; audience <- registered entity ID; issuers <- IdP entity ID; bearer expiry = Now + 1*MaxIssueDelay; NotBefore never earlier than Now - 1*MaxClockSkew; name ID and attribute values <- the session", 20)
-	r.Rule("C06.signed", "sign -> store Signature (under err == nil) -> rebuild Element() -> emit, for the assertion and for the response; the stored elements are written only by these functions; builders re-embed the stored Signature", 10)
-	r.Rule("C06.post", "the POST form is produced only for an HTTP-POST endpoint and carries the base64 of the serialised signed response tree and the request's relay state; the HTTP reply is the executed template only", 4)
-	r.Rule("C06.ctx", "the signing context uses the IdP's Signer or Key, a chain starting with the IdP certificate, and the configured signature method (RSA-SHA1 only when unset), with the method error checked", 4)
+	r.Rule("C06.signed", "sign -> store Signature (under err == nil) -> rebuild Element() -> emit, for the assertion and for the response; the stored elements are written only by these functions; builders re-embed the stored Signature", 6)
+	r.Rule("C06.post", "the POST form is produced only for an HTTP-POST endpoint and carries the base64 of the serialised signed response tree and the request's relay state; the HTTP reply is the executed template only", 2)
+	r.Rule("C06.ctx", "the signing context uses the IdP's Signer or Key, a chain starting with the IdP certificate, and the configured signature method (RSA-SHA1 only when unset), with the method error checked", 2)
 	checkC06Fields(r, p, "C06.fields")
 	checkC06Signed(r, p)
 	checkC06Post(r, p)
